@@ -46,6 +46,8 @@ structure FInst (F : Type) where
   note : String := ""
   /-- what the implementation printed for its configuration the last time it was asked (kept across a reset) -/
   lastCfg : Option String := none
+  /-- for a kernel built by the normalising constructor: the coefficients as they were handed in -/
+  raw : List F := []
   /-- long-run mode: keep only the most recent `cap` inputs / outputs -/
   long : Option Nat := none
 
